@@ -159,6 +159,22 @@ def k2(ctx, res):
                 and node.func.attr in ("pop", "clear", "popitem", "update"):
             n += 1
             res.violation(ser, node, reason="keyword values are removed or replaced wholesale on the way out")
+    # re-binding the keyword dict to a filtered copy of itself drops keywords wholesale
+    first = True
+    for node in walk_own(ser.body):
+        if isinstance(node, (ast.Assign, ast.AnnAssign)) and node.value is not None:
+            tg = node.targets[0] if isinstance(node, ast.Assign) else node.target
+            if isinstance(tg, ast.Name) and tg.id == sname:
+                if first:
+                    first = False
+                    continue
+                v_ = node.value
+                if isinstance(v_, ast.DictComp) and len(v_.generators) == 1 and norm(v_.generators[0].iter) == f"{sname}.items()" \
+                        and v_.generators[0].ifs:
+                    n += 1
+                    res.violation(ser, f"{sname} = {{... for ... in {sname}.items() if {norm(v_.generators[0].ifs[0])[:60]}}}",
+                                  reason="the keyword dict is replaced by a filtered copy: every keyword whose value meets the "
+                                         "filter is dropped (empty `items`, `const: []`, `enum: []` ... are meaningful)")
     res.floor("stores_and_deletes_on_schema", n, 3)
     # the initial read takes every keyword that differs from its constructor default
     ok = False
@@ -209,6 +225,35 @@ def k11(ctx, res):
               reason="validation lets a required property with a default be omitted, but the serializer lists it in `required`: "
                      "the emitted document rejects {} which the element tree accepts "
                      "(class R(Object): a = Property(String(default='x'), required=True))")
+
+
+@rule("K12", "the `required` flag of every property survives serialization (it is listed whenever it is set)")
+def k12(ctx, res):
+    ser = view(ctx.func("_serialize_element"), ctx.prog, keep=("schema",))
+    verdict = None
+    detail = {}
+    for b in builders(ser.body):
+        it = norm(b.iter)
+        if not (it.endswith(".items()") and "properties" in it and isinstance(b.target, ast.Tuple) and len(b.target.elts) == 2):
+            continue
+        if b.kind in ("list", "gen", "set") and any(g.endswith(".required") for g in b.guard_texts()):
+            conds = [c for t, pol in b.guards for c in flatten_guard(t, pol)]
+            detail["filters"] = b.guard_texts()
+            verdict = len(conds) == 1
+    if verdict is None:
+        # the validator's helper used for serialization?
+        for n in walk_own(ser.body):
+            if isinstance(n, ast.Attribute) and n.attr == "required" and "properties" in norm(n.value) and isinstance(n.ctx, ast.Load):
+                rq = ctx.cls("_PropertyDict").props["required"]["get"]
+                for b in builders(view(rq, ctx.prog).body):
+                    if has("self.items()", b.iter):
+                        conds = [c for t, pol in b.guards for c in flatten_guard(t, pol)]
+                        detail["filters"] = ["_PropertyDict.required: " + g for g in b.guard_texts()]
+                        verdict = len(conds) == 1
+    res.judge(verdict, ser, "required += [prop.source or name for ... if prop.required]", detail=detail,
+              reason="the emitted `required` is filtered by more than the property's own flag (the validator's helper also "
+                     "skips properties that declare a default): Property(String(default='x'), required=True) comes back from "
+                     "the round trip with required=False")
 
 
 # ---------------------------------------------------------------------- K3
@@ -327,9 +372,21 @@ def k4(ctx, res):
                                   reason="placeholders for omitted properties are merged with the input (keyed by JSON names) and "
                                          "looked up by JSON (source) name: they must be keyed by the property's source, or a "
                                          "renamed property never receives its default")
+                elif isinstance(inner, ast.Call) and dotted(inner.func) == "dict.fromkeys" and inner.args:
+                    # keys are the members of the iterated object: the property mapping (and Properties itself, whose
+                    # __iter__ walks it) is keyed by PYTHON attribute names
+                    n += 1
+                    src = norm(inner.args[0])
+                    it = pc.cls.methods.get("__iter__") if pc.cls is not None else None
+                    self_iterates_props = it is not None and has("iter(self.props)", it)
+                    py_keyed = src in ("self.props", "self.props.keys()", "list(self.props)") or (src == "self" and self_iterates_props)
+                    res.judge(False if py_keyed else None, pc, f"placeholder keys: {norm(inner)[:60]}",
+                              reason="placeholders for omitted properties are merged with the input (keyed by JSON names) and "
+                                     "looked up by JSON (source) name: keyed by the Python attribute names, a renamed property "
+                                     "never receives its default")
                 elif k is not None or inner is not None:
                     n += 1
-                    res.unrecognised(pc, node, reason="a member of unknown key kind is merged into the value mapping")
+                    res.unrecognised(pc, norm(node)[:80], reason="a member of unknown key kind is merged into the value mapping")
         elif isinstance(node, ast.Call) and isinstance(node.func, ast.Attribute) and norm(node.func.value) == v \
                 and node.func.attr in ("setdefault", "update", "__setitem__"):
             n += 1
@@ -577,6 +634,32 @@ def k5(ctx, res):
             ok = ("replace('\\\\', '\\\\\\\\')" in src) and ("replace('\"', '\\\\\"')" in src)
             res.check(ok, g, "escapes backslash and double quote",
                       reason="the docstring emitter escapes the two characters that can end or alter a triple-quoted literal")
+            # characters copied raw into the literal: decided over all code points
+            from .rules_rna import _char_pred
+            import sys as _sys
+            verdict = None
+            detail = {}
+            for node in walk_own(g.body):
+                if isinstance(node, (ast.GeneratorExp, ast.ListComp)) and len(node.generators) == 1 and isinstance(node.elt, ast.IfExp) \
+                        and isinstance(node.generators[0].target, ast.Name):
+                    var = node.generators[0].target.id
+                    e = node.elt
+                    raw_when = None
+                    if norm(e.body) == var:
+                        raw_when = _char_pred(e.test, var)
+                    elif norm(e.orelse) == var:
+                        inner = _char_pred(e.test, var)
+                        raw_when = None if inner is None else (lambda c, inner=inner: not inner(c))
+                    if raw_when is None:
+                        continue
+                    bad = [cp for cp in range(_sys.maxunicode + 1)
+                           if (cp in (0x0D, 0x00) or 0xD800 <= cp <= 0xDFFF) and raw_when(chr(cp))]
+                    verdict = not bad
+                    detail = {"kept_raw_but_altered_by_the_tokenizer": [f"U+{cp:04X}" for cp in bad[:5]]}
+            res.judge(verdict, g, "characters written raw into the generated docstring", detail=detail,
+                      reason="a carriage return written raw into the source is normalised to a newline when the module is "
+                             "compiled (and NUL / lone surrogates cannot be in source at all): the class docstring no longer "
+                             "equals the description")
     fctx = fixture_ctx(ctx)
     fres = RuleResult("K5", "control")
     k5_core(fctx, fres, [fctx.func("k5_bad"), fctx.func("k5_ok")])
